@@ -154,14 +154,25 @@ impl Display for Formatted<'_, BinOp> {
                 }
                 (op, Value::BinOp(op2))
                     if ((op2.op < op)
-                        || (op == Minus && op2.op == Minus))
+                        || (op == Minus && op2.op == Minus)
+                        || (op == Div && op2.op == Div))
                         && !(op.is_cmp() && op2.op.is_cmp()) =>
                 {
                     (op, Value::Paren(Box::new(self.value.b.clone())))
                 }
                 (op, v) => (op, v.clone()),
             };
+            // A sum or difference as the left operand of `*` or `/` needs
+            // parentheses as well: `(a + b) * c` is not `a + b * c`.
+            let a_needs_paren = matches!(op, Operator::Multiply | Div)
+                && matches!(is_op(&self.value.a), Some(Plus | Minus));
+            if a_needs_paren {
+                out.write_char('(')?;
+            }
             self.value.a.format(self.format).fmt(out)?;
+            if a_needs_paren {
+                out.write_char(')')?;
+            }
             if self.value.s1 {
                 out.write_char(' ')?;
             }
